@@ -36,8 +36,11 @@ def _build(sp, share=False):
     return M, I, S
 
 
-def _full_complement(sp, state):
-    """For each reaction: does the state hold every species the reaction consumes (immediately or after delay)?"""
+def _full_complement(sp, state, stochastic=True):
+    """For each reaction: does the state hold every species the reaction consumes (immediately or after delay)?  The safe
+    interface switches a reaction off below that complement in the stochastic modes only; in the deterministic and
+    volume modes states are concentrations and its rates are the closed forms wherever the consumed species are present
+    at all (> 0)."""
     out = []
     S, Sd = ref.stoich(sp)
     for j, rx in enumerate(sp["reactions"]):
@@ -49,7 +52,7 @@ def _full_complement(sp, state):
                 need = -(a + b)
             elif a < 0 or b < 0:
                 need = -min(a, b)
-            if state[s] < need:
+            if (state[s] < need) if stochastic else (need > 0 and state[s] <= 0):
                 ok = False
         out.append(ok)
     return out
@@ -59,7 +62,8 @@ def _compare(res, sp, M, I, S, state, V, t, shape_tag):
     x = specmod.state_vector(M, state)
     p = np.array(M.get_parameter_values(), dtype=float)
     props = M.get_propensities()
-    full = _full_complement(sp, state)
+    full_stoch = _full_complement(sp, state)
+    full_det = _full_complement(sp, state, stochastic=False)
     n_eval = 0
     # the general mass-action class constructed directly ("a bare propensity object"): a model only uses it from order 3
     # on (orders 0..2 are dispatched to specialised classes), the class itself accepts every order 0..4
@@ -75,6 +79,7 @@ def _compare(res, sp, M, I, S, state, V, t, shape_tag):
                 b.initialize({"species": "*".join(rx["r"]), "k": "k"}, dict(s2i), {"k": 0})
             bare[j] = (b, np.array([kval], dtype=float))
     for mode in ref.MODES:
+        full = full_stoch if mode in ("stoch", "stochvol") else full_det
         exp = [ref.rate(sp, rx, state, t, mode, V) for rx in sp["reactions"]]
         got_iface = I.py_verif_compute_propensities(x.copy(), t, mode, V)
         got_safe = S.py_verif_compute_propensities(x.copy(), t, mode, V)
